@@ -368,6 +368,10 @@ func c19Generate(r *Rand, mode string, nowYear int) *c19Doc {
 	line := func(level int, rest string) { fmt.Fprintf(&sb, "%d %s\n", level, rest) }
 	hostile := mode == "hostile"
 	collide := mode == "collide"
+	// "numbered": namesakes, places and people called like fixed pages, and sources whose pointer
+	// is one of the document's own keys followed by "-<n>": the numbered keys getUniqueKey hands
+	// out have to keep off the source pages too
+	numbered := mode == "numbered"
 	nI := 1 + r.Intn(7)
 	if r.Chance(1, 8) {
 		nI = 8 + r.Intn(10)
@@ -379,6 +383,9 @@ func c19Generate(r *Rand, mode string, nowYear int) *c19Doc {
 		nI = 0
 	}
 	nS := r.Intn(4)
+	if numbered {
+		nI, nS = 3+r.Intn(4), 2+r.Intn(4)
+	}
 	nF := 0
 	if nI > 1 {
 		nF = r.Intn(nI/2 + 2)
@@ -403,12 +410,47 @@ func c19Generate(r *Rand, mode string, nowYear int) *c19Doc {
 	for i := range sptr {
 		sptr[i] = ptr("S", i, true)
 	}
+	numGiven, numSurn := []string{"John", "Ann", "Old", "Sources"}, []string{"Smith", "Town", ""}
+	numPlaces := []string{"Old Town", "Places", "Sydney", "Ann Smith", "Statistics", "John Smith"}
+	if numbered {
+		var bases []string // keys the people and places of this document will ask for
+		for _, g := range numGiven {
+			for _, sn := range numSurn {
+				bases = append(bases, strings.Trim(strings.ToLower(g)+"-"+strings.ToLower(sn), "-"))
+			}
+		}
+		for _, pl := range numPlaces {
+			bases = append(bases, strings.ReplaceAll(strings.ToLower(pl), " ", "-"))
+		}
+		bases = append(bases, "places", "families", "surnames", "sources", "statistics", "individuals-a", "individuals-symbol")
+		for i := range sptr {
+			delete(usedPtr, sptr[i])
+			p := r.Pick(bases)
+			switch r.Intn(5) {
+			case 0: // the plain key
+			case 1: // the numbered key of an earlier source of this document
+				if i > 0 {
+					p = sptr[r.Intn(i)]
+				}
+				p += "-" + strconv.Itoa(1+r.Intn(2))
+			default:
+				p += "-" + strconv.Itoa(1+r.Intn(3))
+			}
+			for usedPtr[p] {
+				p += "-1"
+			}
+			usedPtr[p] = true
+			sptr[i] = p
+		}
+	}
 	fptr := make([]string, nF)
 	for i := range fptr {
 		fptr[i] = ptr("F", i, r.Chance(1, 3))
 	}
 	place := func() string {
 		switch {
+		case numbered:
+			return r.Pick(numPlaces)
 		case collide:
 			return r.Pick([]string{"Old Town", "old-town", "Old,Town", "OLD TOWN", "Oldtown", "Ann Smith", "ann-smith", "Bob Jones"})
 		case hostile && r.Chance(1, 30):
@@ -464,6 +506,8 @@ func c19Generate(r *Rand, mode string, nowYear int) *c19Doc {
 		for k := 0; k < nNames; k++ {
 			gv, sn := c19Given[r.Intn(8)], c19Surn[r.Intn(4)]
 			switch {
+			case numbered:
+				gv, sn = r.Pick(numGiven), r.Pick(numSurn)
 			case collide:
 				gv, sn = r.Pick([]string{"Old", "old", "OLD", "Ann", "Bob", "ann"}), r.Pick([]string{"Town", "town", "Smith", "Jones", "smith"})
 			case hostile && r.Chance(1, 4): // a person called like a place
@@ -477,14 +521,14 @@ func c19Generate(r *Rand, mode string, nowYear int) *c19Doc {
 			if sn != "" {
 				name += " /" + sn + "/"
 			}
-			if r.Chance(1, 6) {
+			if !numbered && r.Chance(1, 6) {
 				name += " Jr"
 			}
 			line(1, "NAME "+name)
-			if r.Chance(1, 6) {
+			if !numbered && r.Chance(1, 6) {
 				line(2, "NPFX Dr")
 			}
-			if r.Chance(1, 8) {
+			if !numbered && r.Chance(1, 8) {
 				line(2, "SPFX van")
 			}
 		}
@@ -680,8 +724,8 @@ type c19Facts struct {
 	names, surnames []string
 	living          []bool
 	sources         []string
-	values          []string          // PLAC values of the published places, document order
-	req             string            // the c19files request
+	values          []string // PLAC values of the published places, document order
+	req             string   // the c19files request
 }
 
 // c19NamingTies registers the naming correspondence for one document (in-process: nothing is
@@ -1181,6 +1225,9 @@ func init() {
 				"0 HEAD\n0 @I1@ INDI\n1 NAME Oldtown\n1 BIRT\n2 PLAC Oldtown\n1 DEAT Y\n0 @S/../x@ SOUR\n1 TITL T\n0 TRLR\n",
 				"0 HEAD\n0 @I1@ INDI\n1 NAME Ann /1st/\n1 DEAT Y\n0 @I2@ INDI\n1 NAME Bob /Éclair/\n1 DEAT Y\n0 @I3@ INDI\n1 NAME Cy /Smith/\n1 DEAT Y\n0 TRLR\n",
 				"0 HEAD\n0 @I1@ INDI\n1 NAME Places\n1 BIRT\n2 PLAC Old Town\n1 DEAT Y\n2 PLAC old-town\n0 @places@ SOUR\n0 @a/b@ SOUR\n0 @../x@ SOUR\n0 TRLR\n",
+				// numbered keys against source pages (wave-2 seed): namesakes + a source called like the second one; a place called like a fixed page + a source called like its numbered key
+				"0 HEAD\n0 @I1@ INDI\n1 NAME John /Smith/\n1 DEAT Y\n0 @I2@ INDI\n1 NAME John /Smith/\n1 DEAT Y\n0 @I3@ INDI\n1 NAME John /Smith/\n1 DEAT Y\n0 @john-smith-1@ SOUR\n1 TITL T\n0 TRLR\n",
+				"0 HEAD\n0 @I1@ INDI\n1 NAME Sources\n1 BIRT\n2 PLAC Places\n1 DEAT Y\n2 PLAC Sydney\n0 @places-1@ SOUR\n0 @sources-1@ SOUR\n0 @sydney@ SOUR\n0 @sydney-1@ SOUR\n0 TRLR\n",
 			}
 			for i := b0; i < b1; i++ {
 				var d *c19Doc
@@ -1192,6 +1239,8 @@ func init() {
 					o = c19Opts{true, true, true, true, true, true, "show"}
 				case i%5 == 4:
 					d = c19Generate(c.R, "plain", year)
+				case i%10 == 6:
+					d = c19Generate(c.R, "numbered", year)
 				case i%5 == 3:
 					d = c19Generate(c.R, "collide", year)
 				case i%25 == 7:
@@ -1239,9 +1288,9 @@ func init() {
 					expect[f.Name] = f.Sha
 				}
 				for ji, jobs := range allJobs {
-				if c.Quick() && ji != i%4 && ji != (i+2)%4 {
-					continue // quick tier: two of the four job counts per site, all four over any two sites in a row
-				}
+					if c.Quick() && ji != i%4 && ji != (i+2)%4 {
+						continue // quick tier: two of the four job counts per site, all four over any two sites in a row
+					}
 					variants = append(variants, &variant{site: s, what: fmt.Sprintf("rerun jobs=%d", jobs),
 						job: &c19Job{Gedcom: g, Opts: s.opts, Jobs: jobs, Repeat: 2, Expect: expect},
 						env: []string{"GOMAXPROCS=" + strconv.Itoa([]int{1, 2, 4, 8}[(i+ji)%4])}})
